@@ -600,4 +600,68 @@ EXTRA = [
         return resp""", """            resp = Response('internal error: %s' % self.msg, status=500)
             resp.cache_headers(no_cache=True)
         return resp""", 'C20.e', 'no-store only on one branch'),
+    # ---------------------------------------------------------------- C02
+    M('M-C02a-revert-D10', 'mapproxy/service/wmts.py', "bbox = tile_layer.tile_bbox(request)", "bbox = tile_layer.grid.tile_bbox(request.tile)",
+      'C02.a', 'revert of fix D10'),
+    M('M-C02a-kml-public-to-grid', 'mapproxy/service/kml.py', "bbox = layer.tile_bbox(tile_request, use_profiles=tile_request.use_profiles, limit=True)",
+      "bbox = layer.grid.tile_bbox(tile_request.tile, limit=True)", 'C02.a'),
+    E('E-C02a-local-before-converter', 'mapproxy/service/tile.py', "tile_coord = self.grid.internal_tile_coord(tile_request.tile, use_profiles)",
+      "public = tile_request.tile\n        tile_coord = self.grid.internal_tile_coord(public, use_profiles)", 'bound to a local first'),
+    M('M-C02b-rest-origin-sw', 'mapproxy/request/wmts.py', "    request_handler_name = 'tile'\n    origin = 'nw'", "    request_handler_name = 'tile'\n    origin = 'sw'", 'C02.b'),
+    M('M-C02b-revert-D10-origin', 'mapproxy/request/wmts.py', "    request_handler_name = 'featureinfo'\n    origin = 'nw'\n", "    request_handler_name = 'featureinfo'\n", 'C02.b', 'revert of fix D10 (origin)'),
+    M('M-C02b-no-flip-nw', 'mapproxy/service/tile.py', "if tile_request.origin == 'nw' and self.grid.origin not in ('ul', 'nw'):",
+      "if tile_request.origin == 'nw' and self.grid.origin in ('ul', 'nw'):", 'C02.b'),
+    M('M-C02b-kml-origin-late', 'mapproxy/service/kml.py', """        map_request.origin = 'sw'
+        layer = self.layer(map_request)
+        limit_to = self.authorize_tile_layer(layer, map_request)
+        tile = layer.render(map_request, coverage=limit_to)""", """        layer = self.layer(map_request)
+        limit_to = self.authorize_tile_layer(layer, map_request)
+        tile = layer.render(map_request, coverage=limit_to)
+        map_request.origin = 'sw'""", 'C02.b'),
+    E('E-C02b-origin-in-init', 'mapproxy/request/wmts.py', """class WMTS100RestFeatureInfoRequest(TileRequest):
+    \"\"\"
+    Class for RESTful WMTS FeatureInfo requests.
+    \"\"\"
+    xml_exception_handler = WMTS100ExceptionHandler
+    request_handler_name = 'featureinfo'
+    origin = 'nw'
+
+    def __init__(self, request, req_vars, url_converter=None):
+        self.http = request""", """class WMTS100RestFeatureInfoRequest(TileRequest):
+    \"\"\"
+    Class for RESTful WMTS FeatureInfo requests.
+    \"\"\"
+    xml_exception_handler = WMTS100ExceptionHandler
+    request_handler_name = 'featureinfo'
+
+    def __init__(self, request, req_vars, url_converter=None):
+        self.origin = 'nw'
+        self.http = request""", 'origin set in __init__ instead of the class body'),
+    M('M-C02c-topleft-bottom', 'mapproxy/service/wmts.py', "topleft = bbox[0], bbox[3]", "topleft = bbox[0], bbox[1]", 'C02.c'),
+    M('M-C02c-origin-tile-ll', 'mapproxy/service/wmts.py', "origin = self.grid.origin_tile(level, 'ul')", "origin = self.grid.origin_tile(level, 'll')", 'C02.c'),
+    M('M-C02d-profile-skip-two', 'mapproxy/service/tile.py', """        if use_profiles and self._skip_first_level:
+            z += 1
+        if self._skip_odd_level:
+            z *= 2
+        return self.grid.limit_tile((x, y, z))""", """        if use_profiles and self._skip_first_level:
+            z += 2
+        if self._skip_odd_level:
+            z *= 2
+        return self.grid.limit_tile((x, y, z))""", 'C02.d'),
+    M('M-C02d-tile-sets-start', 'mapproxy/service/tile.py', """            if self._skip_odd_level:
+                start = 2
+            else:
+                start = 1""", """            if self._skip_odd_level:
+                start = 1
+            else:
+                start = 1""", 'C02.d'),
+    M('M-C02e-revert-D12', 'mapproxy/service/templates/tms_tilemap_capabilities.xml', '<Origin x="{{layer.grid.bbox[0]}}" y="{{layer.grid.bbox[1]}}" />',
+      '<Origin x="{{layer.bbox[0]}}" y="{{layer.bbox[1]}}" />', 'C02.e', 'revert of fix D12'),
+    M('M-C02e-tilewidth-index', 'mapproxy/service/templates/wmts100capabilities.xml', "<TileWidth>{{matrix.tile_size[0]}}</TileWidth>",
+      "<TileWidth>{{matrix.tile_size[1]}}</TileWidth>", 'C02.e'),
+    M('M-C02e-wmsc-width', 'mapproxy/service/templates/wms111capabilities.xml', "<Width>{{layer.grid.tile_size[0]}}</Width>",
+      "<Width>{{layer.grid.tile_size[1]}}</Width>", 'C02.e'),
+    E('E-C02e-whitespace', 'mapproxy/service/templates/wmts100capabilities.xml', "<TileWidth>{{matrix.tile_size[0]}}</TileWidth>",
+      "<TileWidth>{{ matrix.tile_size[0] }}</TileWidth>", 'whitespace inside the placeholder'),
+    M('M-C02f-meters-per-degree', 'mapproxy/service/wmts.py', "METERS_PER_DEEGREE = 111319.4907932736", "METERS_PER_DEEGREE = 111139.4907932736", 'C02.f'),
 ]
